@@ -57,9 +57,12 @@ Definition sobserve (r : list gval * list gval) : sobserved :=
                  | VEff x [VObj _ fs] :: _ => if x =? "receiver" then lookup fs "lastState" else None
                  | _ => None
                  end |}.
+(* the translated functions that run inside this lemma file; every other call is a scripted collaborator *)
+Definition sync_funs : list (string * gfun) :=
+  filter (fun p => (fst p =? "Manager.trySyncNextBlock") || (fst p =? "Manager.updateState")) gen_funs.
 Definition run_sync (w : sworld) : option sobserved :=
-  match lookup gen_funs "Manager.trySyncNextBlock" with
-  | Some fn => interp (bind (exec 400 gen_funs (sglobals w) (start_env fn (Some (sobj w)) [VUnit; VN (s_da w)]) [] (f_body fn))
+  match lookup sync_funs "Manager.trySyncNextBlock" with
+  | Some fn => interp (bind (exec 400 sync_funs (sglobals w) (start_env fn (Some (sobj w)) [VUnit; VN (s_da w)]) [] (f_body fn))
                             (fun r => RRet (sobserve r)))
   | None => None
   end.
